@@ -24,6 +24,7 @@ import (
 	"fmt"
 	"os"
 	"path/filepath"
+	"slices"
 	"sort"
 	"strings"
 	"sync"
@@ -365,6 +366,31 @@ type blockCursorBuilder struct {
 	maxKey  int64
 	hasMin  bool
 	hasMax  bool
+	// desc: the query runs in descending key order. Equal payloads are de-duplicated to their FIRST
+	// occurrence in query order (that is what the merge heap does across blocks and parts), so a
+	// descending query must keep the occurrence with the largest key of the block, not the smallest.
+	desc bool
+}
+
+// rowOrder returns the i-th row of the block in query order.
+func (b *blockCursorBuilder) rowOrder(i int) int {
+	if b.desc {
+		return len(b.block.userKeys) - 1 - i
+	}
+	return i
+}
+
+// restoreKeyOrder puts the kept rows back into ascending key order (the cursor walks them backwards
+// for a descending query).
+func (b *blockCursorBuilder) restoreKeyOrder() {
+	if !b.desc {
+		return
+	}
+	slices.Reverse(b.bc.userKeys)
+	slices.Reverse(b.bc.data)
+	for tagName := range b.bc.tags {
+		slices.Reverse(b.bc.tags[tagName])
+	}
 }
 
 func (b *blockCursorBuilder) processWithFilter(req QueryRequest, log *logger.Logger) error {
@@ -376,7 +402,8 @@ func (b *blockCursorBuilder) processWithFilter(req QueryRequest, log *logger.Log
 	decoder := req.TagFilter.GetDecoder()
 	orderedTagNames := b.orderedTagNamesForFilter(req.TagProjection)
 
-	for i := 0; i < len(b.block.userKeys); i++ {
+	for n := 0; n < len(b.block.userKeys); n++ {
+		i := b.rowOrder(n)
 		dataBytes := b.block.data[i]
 		hash, duplicate := b.checkDuplicate(dataBytes, true)
 		if duplicate {
@@ -401,7 +428,8 @@ func (b *blockCursorBuilder) processWithFilter(req QueryRequest, log *logger.Log
 }
 
 func (b *blockCursorBuilder) processWithoutFilter() {
-	for i := 0; i < len(b.block.userKeys); i++ {
+	for n := 0; n < len(b.block.userKeys); n++ {
+		i := b.rowOrder(n)
 		dataBytes := b.block.data[i]
 		hash, duplicate := b.checkDuplicate(dataBytes, false)
 		if duplicate {
@@ -599,6 +627,7 @@ func (s *sidx) loadBlockCursor(bc *blockCursor, tmpBlock *block, bs blockScanRes
 		maxKey:  maxKey,
 		metrics: metrics,
 		seen:    make(map[uint64][][]byte),
+		desc:    !extractOrdering(req),
 	}
 
 	if req.TagFilter != nil {
@@ -608,6 +637,7 @@ func (s *sidx) loadBlockCursor(bc *blockCursor, tmpBlock *block, bs blockScanRes
 	} else {
 		builder.processWithoutFilter()
 	}
+	builder.restoreKeyOrder()
 
 	if metrics != nil {
 		metrics.outputElementsEmitted.Add(int64(len(bc.userKeys)))
